@@ -2010,10 +2010,18 @@ func opcodeCheckSig(op *ParsedOpcode, t *thread) error {
 		return err
 	}
 
+	// a failed check of a non-empty signature is a hard failure under NULLFAIL, whatever made it fail
+	failed := func() error {
+		if t.hasFlag(scriptflag.VerifyNullFail) && len(fullSigBytes) > 0 {
+			return errs.NewError(errs.ErrNullFail, "signature not empty on failed checksig")
+		}
+		t.dstack.PushBool(false)
+		return nil
+	}
+
 	pubKey, err := bec.ParsePubKey(pkBytes, bec.S256())
 	if err != nil {
-		t.dstack.PushBool(false)
-		return nil //nolint:nilerr // only need a false push in this case
+		return failed()
 	}
 
 	var signature *bec.Signature
@@ -2023,16 +2031,14 @@ func opcodeCheckSig(op *ParsedOpcode, t *thread) error {
 		signature, err = bec.ParseSignature(sigBytes, bec.S256())
 	}
 	if err != nil {
-		t.dstack.PushBool(false)
-		return nil //nolint:nilerr // only need a false push in this case
+		return failed()
 	}
 
-	ok := signature.Verify(hash, pubKey)
-	if !ok && t.hasFlag(scriptflag.VerifyNullFail) && len(sigBytes) > 0 {
-		return errs.NewError(errs.ErrNullFail, "signature not empty on failed checksig")
+	if ok := signature.Verify(hash, pubKey); !ok {
+		return failed()
 	}
 
-	t.dstack.PushBool(ok)
+	t.dstack.PushBool(true)
 	return nil
 }
 
